@@ -55,8 +55,12 @@ func (g *Generator) generateMethodFunction(obj *tlparser.Method) jen.Code {
 	// еще одно злоебучее исключение. проблема в том, что bool это вот как бы и объект, да вот как бы и нет
 	// трабла только в том, что нельзя просто так взять, и получить bool из MakeRequest. так что
 	// возвращаем tl.Bool
-	if obj.Response.Type == "Bool" {
-		resp = jen.Op("*").Qual(tlPackagePath, "PseudoBool")
+	// значение, которое возвращается вместе с ошибкой
+	zeroResp := jen.Nil()
+	if obj.Response.Type == "Bool" && !obj.Response.IsList {
+		// MakeRequest already unwraps boolTrue / boolFalse into native bool
+		resp = jen.Bool()
+		zeroResp = jen.False()
 	}
 
 	responses := []jen.Code{resp, jen.Error()}
@@ -75,7 +79,7 @@ func (g *Generator) generateMethodFunction(obj *tlparser.Method) jen.Code {
 	method := jen.Func().Params(jen.Id("c").Op("*").Id("Client")).Id(goify(obj.Name, true)).Params(g.generateArgumentsForMethod(obj)...).Params(responses...).Block(
 		jen.List(jen.Id("responseData"), jen.Id("err")).Op(":=").Id("c").Dot("MakeRequest").Call(g.generateMethodArgumentForMakingRequest(obj)),
 		jen.If(jen.Err().Op("!=").Nil()).Block(
-			jen.Return(jen.Nil(), jen.Qual(errorsPackagePath, "Wrap").Call(jen.Err(), jen.Lit("sending "+goify(obj.Name, true)))),
+			jen.Return(zeroResp, jen.Qual(errorsPackagePath, "Wrap").Call(jen.Err(), jen.Lit("sending "+goify(obj.Name, true)))),
 		),
 		jen.Line(),
 		jen.List(jen.Id("resp"), jen.Id("ok")).Op(":=").Id("responseData").Assert(resp),
